@@ -23,6 +23,10 @@ func (i *interpreter) nativeArg(fr *frame, v value, depth int) (interface{}, boo
 		if x.t == nil {
 			return nil, true
 		}
+		// symbolic time values are never rendered (digit loops over symbolic durations explode)
+		if isTimeType(x.t) && containsSymDeep(x.v, 0) {
+			return nil, false
+		}
 		// error / Stringer through the interpreter
 		if depth < 3 {
 			for _, m := range []string{"Error", "String"} {
@@ -159,7 +163,7 @@ func (i *interpreter) structuredSprintf(fr *frame, format string, args []value) 
 			var text value
 			if n, ok := i.nativeArg(fr, a, 0); ok {
 				text = fmt.Sprint(n)
-			} else if itf, isI := a.(iface); isI && itf.t != nil {
+			} else if itf, isI := a.(iface); isI && itf.t != nil && !isTimeType(itf.t) {
 				if fn := i.findMethod(itf.t, "String"); fn != nil && fn.Signature.Params().Len() == 0 {
 					text = call(i, fr, token.NoPos, fn, []value{itf.v})
 				}
@@ -347,4 +351,12 @@ func registerErrors() {
 		}
 		return false
 	}
+}
+
+func isTimeType(t types.Type) bool {
+	if p, ok := t.(*types.Pointer); ok {
+		t = p.Elem()
+	}
+	n, ok := t.(*types.Named)
+	return ok && n.Obj().Pkg() != nil && n.Obj().Pkg().Path() == "time"
 }
